@@ -150,12 +150,21 @@ Proof.
     destruct (sp rg + 8 <? W64); [apply IH; exact Ht | discriminate].
 Qed.
 
-Lemma final_pop_safe rg m : @cb_safe regs (final_pop true rg m).
-Proof. unfold final_pop. destruct (m (sp rg)); [|exact I]. destruct (sp rg + 8 <? W64); exact I. Qed.
-
-Lemma pe_step_safe pe address first rg m : cb_safe (fst (pe_step true pe address first rg m)).
+Lemma pe_uncacheable_safe first rg0 ra rg' : @cb_safe regs (pe_uncacheable first rg0 ra rg').
 Proof.
-  unfold pe_step.
+  unfold pe_uncacheable. destruct ((sp rg' =? sp rg0) && (ra =? ip rg0)); [exact I|].
+  destruct (negb first && (sp rg' <=? sp rg0)); exact I.
+Qed.
+
+Lemma final_pop_safe first rg0 rg m : @cb_safe regs (final_pop true first rg0 rg m).
+Proof.
+  unfold final_pop. destruct (m (sp rg)); [|exact I].
+  destruct (sp rg + 8 <? W64); [apply pe_uncacheable_safe | exact I].
+Qed.
+
+Lemma pe_step_raw_safe pe address first rg m : cb_safe (fst (pe_step_raw true pe address first rg m)).
+Proof.
+  unfold pe_step_raw.
   destruct (pe_lookup (pe_funcs pe) address None) as [f|] eqn:Elk; [|exact I].
   assert (Hbeg : rt_begin f <= address) by (eapply pe_lookup_begin; [|exact Elk]; discriminate).
   destruct (ui_at (pe_uinfos pe) (rt_uinfo f)) as [u0| |]; try exact I.
@@ -174,8 +183,8 @@ Proof.
         | Some _ => (CbHang, pe_eff_alloc)
         | None =>
           match run_ops_pe u0 ops rg m with
-          | OpCont rg' => (final_pop true rg' m, pe_eff_alloc)
-          | OpBreak ra rg' => (CbUncacheable ra rg', pe_eff_alloc)
+          | OpCont rg' => (final_pop true first rg rg' m, pe_eff_alloc)
+          | OpBreak ra rg' => (pe_uncacheable first rg ra rg', pe_eff_alloc)
           | OpNoStack rg' => (CbErrV rg', pe_eff_alloc)
           | OpPanic => (CbPanic S_pe_dep, pe_eff_alloc)
           end
@@ -187,7 +196,8 @@ Proof.
     destruct (rule_for_sequence (map oop_of_uop (all_ops (address - rt_begin f) infos))) as [x|] eqn:Er.
     - destruct (rule_seq_ok _ _ Er) as [r ->]. cbn. eapply rule_seq_rule_ok. exact Er.
     - destruct (run_ops_pe u0 (all_ops (address - rt_begin f) infos) rg m); cbn [fst]; try exact I; try reflexivity.
-      apply final_pop_safe. }
+      + apply final_pop_safe.
+      + apply pe_uncacheable_safe. }
   destruct first; [|exact TAIL].
   destruct (rt_end f <? address); [exact I|].
   destruct (pe_text pe) as [[[lo hi] bytes]|]; [|exact I].
@@ -200,7 +210,14 @@ Proof.
   - pose proof (run_epilog_checked_nopanic u0 insns rg m) as Hnp.
     destruct (run_epilog true u0 insns rg m); cbn [fst]; try exact I.
     + apply final_pop_safe.
+    + apply pe_uncacheable_safe.
     + exfalso. apply Hnp; [|reflexivity]. intros E. rewrite E in Ep. eapply eparse_sequence_nofp. exact Ep.
+Qed.
+
+Lemma pe_step_safe pe address first rg m : cb_safe (fst (pe_step true pe address first rg m)).
+Proof.
+  pose proof (pe_step_raw_safe pe address first rg m) as H. unfold pe_step. cbn [fst].
+  destruct (fst (pe_step_raw true pe address first rg m)); cbn [pe_restore]; auto.
 Qed.
 
 Lemma cb_x86_safe md first rel rg m : cb_safe (fst (cb_x86 md first rel rg m)).
